@@ -332,6 +332,12 @@ def run_shard(shard):
                     acc.mismatch("strict-gate", "accepted-free-text", {"kind": "s", "s": s, "opts": {}, "backend": "compiled"},
                                  list(r1), "ValueError with strict=True")
             acc.sample({"free_text": texts[:4]})
+            # the tz option itself: names that are not zones in every way the tz database layout allows (a directory, an
+            # empty / non-normalised / escaping key, a file that is not TZif, wrong case), 'local' and 'UTC'
+            tzs = ["Europe", "America/Argentina", "Etc", "", "Europe/", "../UTC", "/UTC", "zone.tab", "tzdata.zi", "posixrules",
+                   "europe/paris", "Europe/Paris ", "local", "UTC", "GMT+0", "+02:00", "\x00"]
+            batch(TEMPLATES[:24] + ["2016-10-06 12:34:56", "12:34:56", "P1D", "2016-10-06/P1D", "junk"],
+                  [{"tz": z} for z in tzs] + [{"tz": z, "exact": True} for z in tzs[:6]], "tz-names")
     finally:
         worker.horizon(worker.SHARD_WATCHDOG)
     acc.c["states"] += n
